@@ -414,8 +414,7 @@ Proof.
   destruct (on_key (get_db s (u_db u)) (u_key u) (e_pop (u_left u))) as [r d'].
   destruct r; rewrite ?Hst; cbn [snd];
     try (right; apply agree_reregister; assumption).
-  - left. reflexivity.
-  - right. apply (agree_unblock (emit b (u_conn u) (FArray [FBulk (u_key u); FBulk b0])) W u). exact HA.
+  right. apply (agree_unblock (emit b (u_conn u) (FArray [FBulk (u_key u); FBulk b0])) W u). exact HA.
 Qed.
 
 (** process_wakeups: the requests taken out of the queue are handled one after the other *)
@@ -546,11 +545,6 @@ Lemma conns_rel_dom s s' : conns_rel s s' -> dom_same s s'.
 Proof.
   intros H c'. specialize (H c'). destruct (zlookup c' (s_conns s')), (zlookup c' (s_conns s)); try tauto; split; congruence.
 Qed.
-Lemma conns_rel_queues s s' : conns_rel s s' -> queues_ok s -> queues_ok s'.
-Proof.
-  intros H Q c' cn' Hc. specialize (H c'). rewrite Hc in H. destruct (zlookup c' (s_conns s)) as [cn|] eqn:E; [|contradiction].
-  destruct H as [H _]. rewrite H. exact (Q c' cn E).
-Qed.
 Lemma dom_same_refl s : dom_same s s.
 Proof. intros c'. reflexivity. Qed.
 
@@ -563,19 +557,13 @@ Proof.
   - subst. rewrite zlookup_zset_same, Hc. split; assumption.
   - rewrite zlookup_zset_other by exact E. destruct (zlookup c' (s_conns s)); [split; reflexivity|exact I].
 Qed.
-(** ... or with another queue *)
-Lemma queues_ok_set_conn s0 s c cn cn' :
-  s_conns s0 = s_conns s -> zlookup c (s_conns s) = Some cn -> queues_ok s ->
-  forallb (fun p => negb (bpop_parts p)) (c_queue cn') = true ->
-  queues_ok (set_conn s0 c cn') /\ dom_same s (set_conn s0 c cn').
+(** ... or with another one: the set of connections stays *)
+Lemma dom_same_set_conn s0 s c cn cn' :
+  s_conns s0 = s_conns s -> zlookup c (s_conns s) = Some cn -> dom_same s (set_conn s0 c cn').
 Proof.
-  intros H0 Hc Q Hq. split.
-  - intros c' cn2. cbn [set_conn s_conns]. rewrite H0. destruct (Z.eq_dec c' c) as [E|E].
-    + subst. rewrite zlookup_zset_same. intros H. injection H as <-. exact Hq.
-    + rewrite zlookup_zset_other by exact E. apply Q.
-  - intros c'. cbn [set_conn s_conns]. rewrite H0. destruct (Z.eq_dec c' c) as [E|E].
-    + subst. rewrite zlookup_zset_same, Hc. split; discriminate.
-    + rewrite zlookup_zset_other by exact E. reflexivity.
+  intros H0 Hc c'. cbn [set_conn s_conns]. rewrite H0. destruct (Z.eq_dec c' c) as [E|E].
+  - subst. rewrite zlookup_zset_same, Hc. split; discriminate.
+  - rewrite zlookup_zset_other by exact E. reflexivity.
 Qed.
 
 Lemma h_auth_rel s c parts r s' : h_auth s c parts = (r, s') -> conns_rel s s'.
@@ -630,58 +618,45 @@ Proof.
     eapply conns_rel_trans; [eapply normal_command_rel; exact E|eapply IH; exact H].
 Qed.
 
-Lemma rel_queues_dom s s' : queues_ok s -> conns_rel s s' -> queues_ok s' /\ dom_same s s'.
-Proof. intros Q R. split; [eapply conns_rel_queues; eauto|apply conns_rel_dom; exact R]. Qed.
-
-Lemma clear_tx_queue cn : forallb (fun p => negb (bpop_parts p)) (c_queue (clear_tx cn)) = true.
-Proof. reflexivity. Qed.
-
-(** Server.process_frame keeps "no blocking pop is queued" as long as none is sent inside MULTI *)
-Lemma process_frame_queues now s c cn f oracle r s' :
-  queues_ok s -> zlookup c (s_conns s) = Some cn -> bpop_frame f && c_intx cn = false ->
-  process_frame now s c f oracle = (r, s') -> queues_ok s' /\ dom_same s s'.
+(** Server.process_frame neither adds nor removes a connection *)
+Lemma process_frame_dom now s c cn f oracle r s' :
+  zlookup c (s_conns s) = Some cn -> process_frame now s c f oracle = (r, s') -> dom_same s s'.
 Proof.
-  intros Q Hc Hg H. unfold process_frame in H.
-  assert (Same : forall r0, (r0, s) = (r, s') -> queues_ok s' /\ dom_same s s').
-  { intros r0 E. inversion E; subst. split; [exact Q|apply dom_same_refl]. }
+  intros Hc H. unfold process_frame in H.
+  assert (Same : forall r0, (r0, s) = (r, s') -> dom_same s s').
+  { intros r0 E. inversion E; subst. apply dom_same_refl. }
   destruct f as [| | | | |l| | | | | | |]; try (eapply Same; exact H).
   destruct l as [|first rest]; [eapply Same; exact H|].
   destruct first as [| | |nm| | | | | | | | |]; try (eapply Same; exact H).
   rewrite Hc in H.
   destruct ((match s_password s with Some _ => true | None => false end) && negb (c_auth cn)).
-  { destruct (beq (upper (trim nm)) (bs "AUTH")); [apply rel_queues_dom; [exact Q|eapply h_auth_rel; exact H]|].
+  { destruct (beq (upper (trim nm)) (bs "AUTH")); [apply conns_rel_dom; eapply h_auth_rel; exact H|].
     destruct (beq (upper (trim nm)) (bs "PING")); [eapply Same; exact H|].
     destruct (beq (upper (trim nm)) (bs "QUIT")); eapply Same; exact H. }
   destruct (beq (upper (trim nm)) (bs "MULTI")).
-  { destruct (c_intx cn); [eapply Same; exact H|]. inversion H; subst.
-    eapply queues_ok_set_conn; eauto. }
+  { destruct (c_intx cn); [eapply Same; exact H|]. inversion H; subst. eapply dom_same_set_conn; eauto. }
   destruct (beq (upper (trim nm)) (bs "EXEC")).
   { unfold h_exec in H. cbv zeta in H. destruct (negb (c_intx cn)); [eapply Same; exact H|].
     destruct (existsb _ (c_watched cn)).
-    - inversion H; subst. eapply queues_ok_set_conn; eauto.
+    - inversion H; subst. eapply dom_same_set_conn; eauto.
     - revert H. destruct (exec_queue _ _ _ _ _) as [reps s2] eqn:E.
       intros H. inversion H; subst.
-      destruct (queues_ok_set_conn s s c cn (clear_tx cn) eq_refl Hc Q (clear_tx_queue cn)) as [Q1 D1].
-      destruct (rel_queues_dom _ _ Q1 (exec_queue_rel _ _ _ _ _ _ _ E)) as [Q2 D2].
-      split; [exact Q2|]. intros c'. etransitivity; [apply D2|apply D1]. }
+      pose proof (dom_same_set_conn s s c cn (clear_tx cn) eq_refl Hc) as D1.
+      pose proof (conns_rel_dom _ _ (exec_queue_rel _ _ _ _ _ _ _ E)) as D2.
+      intros c'. etransitivity; [apply D2|apply D1]. }
   destruct (beq (upper (trim nm)) (bs "DISCARD")).
-  { destruct (negb (c_intx cn)); [eapply Same; exact H|]. inversion H; subst. eapply queues_ok_set_conn; eauto. }
+  { destruct (negb (c_intx cn)); [eapply Same; exact H|]. inversion H; subst. eapply dom_same_set_conn; eauto. }
   destruct (beq (upper (trim nm)) (bs "WATCH")).
   { destruct (len (FBulk nm :: rest) <? 2); [eapply Same; exact H|].
     destruct (c_intx cn) eqn:Ei; [eapply Same; exact H|].
     destruct (watch_loop_partial (get_trk s (c_db cn)) rest (c_watched cn)) as [[t' w'] okb].
-    inversion H; subst. apply rel_queues_dom; [exact Q|].
-    eapply conns_rel_set_conn with (s := s); eauto; cbn [with_tx c_intx c_queue]; congruence. }
+    inversion H; subst. eapply dom_same_set_conn with (s := s); eauto. }
   destruct (beq (upper (trim nm)) (bs "UNWATCH")).
-  { inversion H; subst. apply rel_queues_dom; [exact Q|].
-    eapply conns_rel_set_conn with (s := s); eauto; reflexivity. }
-  destruct (beq (upper (trim nm)) (bs "AUTH")); [apply rel_queues_dom; [exact Q|eapply h_auth_rel; exact H]|].
+  { inversion H; subst. eapply dom_same_set_conn with (s := s); eauto. }
+  destruct (beq (upper (trim nm)) (bs "AUTH")); [apply conns_rel_dom; eapply h_auth_rel; exact H|].
   destruct (c_intx cn && negb (mem_name (upper (trim nm)) tx_not_queued)) eqn:Eq.
-  { inversion H; subst. eapply queues_ok_set_conn; eauto. cbn [with_tx c_queue].
-    rewrite forallb_app. rewrite (Q c cn Hc). cbn [forallb]. rewrite andb_true_r.
-    apply andb_true_iff in Eq. destruct Eq as [Ei _]. rewrite Ei, andb_true_r in Hg.
-    cbn [bpop_frame] in Hg. rewrite Hg. reflexivity. }
-  apply rel_queues_dom; [exact Q|eapply normal_command_rel; exact H].
+  { inversion H; subst. eapply dom_same_set_conn; eauto. }
+  apply conns_rel_dom. eapply normal_command_rel; exact H.
 Qed.
 
 (** ================= the blocking side of a frame ================= *)
@@ -693,28 +668,31 @@ Proof. intros <- H. apply agreeW_self. exact H. Qed.
 Definition blk_change (c : Z) (rep : frame) (b b' : blocking) : Prop :=
   b_blk b' = b_blk b \/ (rep = FNoResponse /\ exists st, b_blk b' = zset_ c st (b_blk b)).
 
-Lemma h_bpop_inv left now s b c dbi parts oms rep s' b' cn :
-  agree b -> zlookup c (b_blk b) = None -> zlookup c (s_conns s) = Some cn ->
+Lemma h_bpop_inv left now s b c dbi parts oms rep s' b' :
+  agree b -> (c <> 0 -> zlookup c (b_blk b) = None /\ exists cn, zlookup c (s_conns s) = Some cn) ->
   h_bpop left now s b c dbi parts oms = (rep, s', b') ->
-  agree b' /\ s_conns s' = s_conns s /\ b_crashed b' = b_crashed b /\ b_out b' = b_out b /\ blk_change c rep b b'.
+  agree b' /\ s_conns s' = s_conns s /\ b_crashed b' = b_crashed b /\ b_out b' = b_out b /\ blk_change c rep b b'
+  /\ (c = 0 -> b' = b).
 Proof.
-  intros HA Hnb Hcn H. unfold h_bpop in H.
+  intros HA Hc0 H. unfold h_bpop in H.
   assert (Same : forall r0 s0, s_conns s0 = s_conns s -> (r0, s0, b) = (rep, s', b') ->
-            agree b' /\ s_conns s' = s_conns s /\ b_crashed b' = b_crashed b /\ b_out b' = b_out b /\ blk_change c rep b b').
+            agree b' /\ s_conns s' = s_conns s /\ b_crashed b' = b_crashed b /\ b_out b' = b_out b /\ blk_change c rep b b' /\ (c = 0 -> b' = b)).
   { intros r0 s0 Hs E. injection E as E1 E2 E3. subst s0 b'. split; [exact HA|]. split; [exact Hs|].
-    split; [reflexivity|]. split; [reflexivity|]. left. reflexivity. }
+    split; [reflexivity|]. split; [reflexivity|]. split; [left; reflexivity|reflexivity]. }
   destruct (len parts <? 3); [eapply Same; [reflexivity|exact H]|].
   destruct (timeout_of (last parts FNull) oms) as [tmo|]; [|eapply Same; [reflexivity|exact H]].
   destruct (all_bulks (removelast (tl parts))) as [keys|]; [|eapply Same; [reflexivity|exact H]].
   destruct (fast_path left (get_db s dbi) keys) as [[r0|] d'].
   - eapply Same; [|exact H]. reflexivity.
-  - rewrite Hcn in H. injection H as E1 E2 E3. subst s' b' rep.
+  - destruct (c =? 0) eqn:Ec0; [eapply Same; [|exact H]; reflexivity|].
+    assert (Hne : c <> 0) by lia. destruct (Hc0 Hne) as [Hnb [cn Hcn]].
+    rewrite Hcn in H. injection H as E1 E2 E3. subst s' b' rep.
     set (st := {| bl_db := dbi; bl_keys := keys; bl_dl := option_map (fun ms => now + ms) tmo; bl_left := left |}).
-    split; [|split; [reflexivity|split; [reflexivity|split; [reflexivity|]]]].
+    split; [|split; [reflexivity|split; [reflexivity|split; [reflexivity|split; [|intros; lia]]]]].
     + apply agreeW_wake_eq with (W := b_wake b); [reflexivity|].
       apply agreeW_self in HA.
       exact (agree_register_gen b (b_wake b) c st (zset_ c st (b_blk b)) HA Hnb (zlookup_zset_same _ _ _)
-               (fun c2 Hne => zlookup_zset_other c c2 st (b_blk b) Hne)).
+               (fun c2 Hne2 => zlookup_zset_other c c2 st (b_blk b) Hne2)).
     + right. split; [reflexivity|]. exists st. reflexivity.
 Qed.
 
@@ -722,14 +700,15 @@ Lemma bpop_parts_names nm rest :
   bpop_parts (FBulk nm :: rest) = beq (upper nm) (bs "BLPOP") || beq (upper nm) (bs "BRPOP").
 Proof. reflexivity. Qed.
 
-(** process_normal_command with the blocking manager: a blocking pop needs a connection that
-    exists and is not blocked; anything else only notifies *)
+(** process_normal_command with the blocking manager: a blocking pop on a real connection needs
+    one that exists and is not blocked (with the id 0 of EXEC it never blocks); anything else only
+    notifies *)
 Lemma bnormal_inv now s b c dbi parts oracle oms rep s' b' :
   agree b ->
-  (bpop_parts parts = true -> zlookup c (b_blk b) = None /\ exists cn, zlookup c (s_conns s) = Some cn) ->
+  (bpop_parts parts = true -> c <> 0 -> zlookup c (b_blk b) = None /\ exists cn, zlookup c (s_conns s) = Some cn) ->
   bnormal now s b c dbi parts oracle oms = (rep, s', b') ->
   agree b' /\ conns_rel s s' /\ b_crashed b' = b_crashed b /\ b_out b' = b_out b /\
-  (if bpop_parts parts then blk_change c rep b b' else b_blk b' = b_blk b).
+  (if bpop_parts parts then blk_change c rep b b' /\ (c = 0 -> b' = b) else b_blk b' = b_blk b).
 Proof.
   intros HA Hg H. unfold bnormal in H.
   assert (NC : forall nmx, (let (r, s'0) := normal_command now s c dbi parts oracle in (r, s'0, notify_after_push b dbi nmx parts r)) = (rep, s', b') ->
@@ -745,45 +724,43 @@ Proof.
          split; [exact HA|]; split; [eapply normal_command_rel; exact En|]; repeat split; reflexivity).
   rewrite bpop_parts_names in *.
   destruct (beq (upper nm) (bs "BLPOP")) eqn:E1.
-  { destruct (Hg eq_refl) as [Hnb [cn Hcn]].
-    destruct (h_bpop_inv _ _ _ _ _ _ _ _ _ _ _ _ HA Hnb Hcn H) as (G1 & G2 & G3 & G4 & G5).
+  { destruct (h_bpop_inv _ _ _ _ _ _ _ _ _ _ _ HA (Hg eq_refl) H) as (G1 & G2 & G3 & G4 & G5 & G6).
     split; [exact G1|]. split; [apply conns_rel_eq; exact G2|]. cbn [orb]. repeat split; assumption. }
   destruct (beq (upper nm) (bs "BRPOP")) eqn:E2.
-  { destruct (Hg eq_refl) as [Hnb [cn Hcn]].
-    destruct (h_bpop_inv _ _ _ _ _ _ _ _ _ _ _ _ HA Hnb Hcn H) as (G1 & G2 & G3 & G4 & G5).
+  { destruct (h_bpop_inv _ _ _ _ _ _ _ _ _ _ _ HA (Hg eq_refl) H) as (G1 & G2 & G3 & G4 & G5 & G6).
     split; [exact G1|]. split; [apply conns_rel_eq; exact G2|]. cbn [orb]. repeat split; assumption. }
   cbn [orb]. eapply NC. exact H.
 Qed.
 
+(** the queue of an EXEC: nobody blocks, whatever is queued *)
 Lemma bexec_queue_inv now dbi : forall q s b acc reps s' b',
-  agree b -> forallb (fun p => negb (bpop_parts p)) q = true ->
+  agree b ->
   bexec_queue now s b dbi q acc = (reps, s', b') ->
   agree b' /\ conns_rel s s' /\ b_crashed b' = b_crashed b /\ b_out b' = b_out b /\ b_blk b' = b_blk b.
 Proof.
-  induction q as [|parts q IH]; intros s b acc reps s' b' HA Hq H; cbn [bexec_queue] in H.
+  induction q as [|parts q IH]; intros s b acc reps s' b' HA H; cbn [bexec_queue] in H.
   - injection H as E1 E2 E3. subst. split; [exact HA|]. split; [apply conns_rel_refl|]. repeat split; reflexivity.
-  - cbn [forallb] in Hq. apply andb_true_iff in Hq. destruct Hq as [Hp Hq]. apply negb_true_iff in Hp.
-    destruct (bnormal now s b 0 dbi parts None None) as [[rep s1] b1] eqn:En.
-    assert (Hg : bpop_parts parts = true -> zlookup 0 (b_blk b) = None /\ exists cn, zlookup 0 (s_conns s) = Some cn)
-      by (intros Hb; congruence).
-    destruct (bnormal_inv _ _ _ _ _ _ _ _ _ _ _ HA Hg En) as (G1 & G2 & G3 & G4 & G5). rewrite Hp in G5.
-    destruct (IH _ _ _ _ _ _ G1 Hq H) as (K1 & K2 & K3 & K4 & K5).
+  - destruct (bnormal now s b 0 dbi parts None None) as [[rep s1] b1] eqn:En.
+    assert (Hg : bpop_parts parts = true -> 0 <> 0 -> zlookup 0 (b_blk b) = None /\ exists cn, zlookup 0 (s_conns s) = Some cn)
+      by (intros _ Hb; congruence).
+    destruct (bnormal_inv _ _ _ _ _ _ _ _ _ _ _ HA Hg En) as (G1 & G2 & G3 & G4 & G5).
+    assert (G5' : b_blk b1 = b_blk b) by (destruct (bpop_parts parts); [destruct G5 as [_ G5]; rewrite (G5 eq_refl); reflexivity|exact G5]).
+    destruct (IH _ _ _ _ _ _ G1 H) as (K1 & K2 & K3 & K4 & K5).
     split; [exact K1|]. split; [eapply conns_rel_trans; eauto|]. repeat split; congruence.
 Qed.
 
-(** one frame: agreement, "nothing blocking is queued", no connection 0 *)
+(** one frame: agreement, no connection 0 *)
 Lemma bprocess_frame_inv now s b c cn f oracle oms rep s' b' :
-  agree b -> queues_ok s -> zlookup 0 (s_conns s) = None ->
-  zlookup c (s_conns s) = Some cn -> zlookup c (b_blk b) = None -> bpop_frame f && c_intx cn = false ->
+  agree b -> zlookup 0 (s_conns s) = None ->
+  zlookup c (s_conns s) = Some cn -> zlookup c (b_blk b) = None ->
   bprocess_frame now s b c f oracle oms = (rep, s', b') ->
-  agree b' /\ queues_ok s' /\ dom_same s s' /\ b_crashed b' = b_crashed b /\ b_out b' = b_out b /\ blk_change c rep b b'.
+  agree b' /\ dom_same s s' /\ b_crashed b' = b_crashed b /\ b_out b' = b_out b /\ blk_change c rep b b'.
 Proof.
-  intros HA Q H0 Hc Hnb Hg H. unfold bprocess_frame in H.
+  intros HA H0 Hc Hnb H. unfold bprocess_frame in H.
   assert (Pass : (let (r, s'0) := process_frame now s c f oracle in (r, s'0, b)) = (rep, s', b') ->
-            agree b' /\ queues_ok s' /\ dom_same s s' /\ b_crashed b' = b_crashed b /\ b_out b' = b_out b /\ blk_change c rep b b').
+            agree b' /\ dom_same s s' /\ b_crashed b' = b_crashed b /\ b_out b' = b_out b /\ blk_change c rep b b').
   { intros E. destruct (process_frame now s c f oracle) as [r s1] eqn:Ep. injection E as E1 E2 E3. subst.
-    destruct (process_frame_queues _ _ _ _ _ _ _ _ Q Hc Hg Ep) as [Q1 D1].
-    split; [exact HA|]. split; [exact Q1|]. split; [exact D1|]. split; [reflexivity|]. split; [reflexivity|]. left. reflexivity. }
+    split; [exact HA|]. split; [eapply process_frame_dom; eauto|]. split; [reflexivity|]. split; [reflexivity|]. left. reflexivity. }
   destruct f as [| | | | |l| | | | | | |]; try (apply Pass; exact H).
   destruct l as [|first rest]; [apply Pass; exact H|].
   destruct first as [| | |nm| | | | | | | | |]; try (apply Pass; exact H).
@@ -793,26 +770,24 @@ Proof.
   destruct (beq (upper (trim nm)) (bs "EXEC")).
   { unfold bh_exec in H. cbv zeta in H.
     destruct (negb (c_intx cn)).
-    { injection H as E1 E2 E3. subst. split; [exact HA|]. split; [exact Q|]. split; [apply dom_same_refl|].
+    { injection H as E1 E2 E3. subst. split; [exact HA|]. split; [apply dom_same_refl|].
       split; [reflexivity|]. split; [reflexivity|]. left. reflexivity. }
     destruct (existsb _ (c_watched cn)).
-    { injection H as E1 E2 E3. subst. destruct (queues_ok_set_conn s s c cn (clear_tx cn) eq_refl Hc Q (clear_tx_queue cn)) as [Q1 D1].
-      split; [exact HA|]. split; [exact Q1|]. split; [exact D1|]. split; [reflexivity|]. split; [reflexivity|]. left. reflexivity. }
+    { injection H as E1 E2 E3. subst. split; [exact HA|]. split; [eapply dom_same_set_conn; eauto|]. split; [reflexivity|]. split; [reflexivity|]. left. reflexivity. }
     revert H. destruct (bexec_queue _ _ _ _ _ _) as [[reps s2] b2] eqn:E. intros H. injection H as E1 E2 E3. subst.
-    destruct (queues_ok_set_conn s s c cn (clear_tx cn) eq_refl Hc Q (clear_tx_queue cn)) as [Q1 D1].
-    destruct (bexec_queue_inv _ _ _ _ _ _ _ _ _ HA (Q c cn Hc) E) as (G1 & G2 & G3 & G4 & G5).
-    destruct (rel_queues_dom _ _ Q1 G2) as [Q2 D2].
-    split; [exact G1|]. split; [exact Q2|]. split; [intros c'; etransitivity; [apply D2|apply D1]|].
+    pose proof (dom_same_set_conn s s c cn (clear_tx cn) eq_refl Hc) as D1.
+    destruct (bexec_queue_inv _ _ _ _ _ _ _ _ _ HA E) as (G1 & G2 & G3 & G4 & G5).
+    pose proof (conns_rel_dom _ _ G2) as D2.
+    split; [exact G1|]. split; [intros c'; etransitivity; [apply D2|apply D1]|].
     split; [exact G3|]. split; [exact G4|]. left. exact G5. }
   destruct (beq (upper (trim nm)) (bs "DISCARD") || beq (upper (trim nm)) (bs "WATCH")
             || beq (upper (trim nm)) (bs "UNWATCH") || beq (upper (trim nm)) (bs "AUTH")); [apply Pass; exact H|].
   destruct (c_intx cn && negb (mem_name (upper (trim nm)) tx_not_queued)) eqn:Eq; [apply Pass; exact H|].
-  assert (Hg' : bpop_parts (FBulk nm :: rest) = true -> zlookup c (b_blk b) = None /\ exists cn0, zlookup c (s_conns s) = Some cn0).
-  { intros _. split; [exact Hnb|]. exists cn. exact Hc. }
+  assert (Hg' : bpop_parts (FBulk nm :: rest) = true -> c <> 0 -> zlookup c (b_blk b) = None /\ exists cn0, zlookup c (s_conns s) = Some cn0).
+  { intros _ _. split; [exact Hnb|]. exists cn. exact Hc. }
   destruct (bnormal_inv _ _ _ _ _ _ _ _ _ _ _ HA Hg' H) as (G1 & G2 & G3 & G4 & G5).
-  destruct (rel_queues_dom _ _ Q G2) as [Q2 D2].
-  split; [exact G1|]. split; [exact Q2|]. split; [exact D2|]. split; [exact G3|]. split; [exact G4|].
-  destruct (bpop_parts (FBulk nm :: rest)); [exact G5|left; exact G5].
+  split; [exact G1|]. split; [apply conns_rel_dom; exact G2|]. split; [exact G3|]. split; [exact G4|].
+  destruct (bpop_parts (FBulk nm :: rest)); [exact (proj1 G5)|left; exact G5].
 Qed.
 
 (** ================= the invariant of the transition system ================= *)
@@ -853,40 +828,33 @@ Theorem inv_step st e : inv st -> ok st e = true -> inv (step st e).
 Proof.
   destruct st as [s b]. intros HI Hok. unfold inv in *. cbn [fst snd] in HI. cbn [step].
   destruct (b_crashed b) eqn:Ecr; [left; exact Ecr|].
-  destruct HI as [HI|(HA & Q & H0)]; [congruence|].
+  destruct HI as [HI|(HA & H0)]; [congruence|].
   destruct e as [now c f oms| |now|c|c]; cbn [ok] in *.
   - (* a frame *)
     destruct (zlookup c (s_conns s)) as [cn|] eqn:Hc; [|discriminate].
-    apply andb_true_iff in Hok. destruct Hok as [Hok Hq]. apply andb_true_iff in Hok. destruct Hok as [Hnb Hg].
-    apply negb_true_iff in Hnb, Hg. apply is_blocked_false in Hnb.
+    apply andb_true_iff in Hok. destruct Hok as [Hnb Hq].
+    apply negb_true_iff in Hnb. apply is_blocked_false in Hnb.
     unfold frame_step. destruct (bprocess_frame now s b c f None oms) as [[rep s'] b'] eqn:E. cbn [fst snd].
-    destruct (bprocess_frame_inv _ _ _ _ _ _ _ _ _ _ _ HA Q H0 Hc Hnb Hg E) as (G1 & G2 & G3 & G4 & G5 & G6).
-    right. split; [destruct rep; exact G1|]. split; [exact G2|]. apply G3. exact H0.
+    destruct (bprocess_frame_inv _ _ _ _ _ _ _ _ _ _ _ HA H0 Hc Hnb E) as (G1 & G3 & G4 & G5 & G6).
+    right. split; [destruct rep; exact G1|]. apply G3. exact H0.
   - (* wake-ups *)
     destruct (agree_process_wakeups s b (or_intror HA)) as [H|H]; [left; exact H|right].
-    split; [exact H|]. split.
-    + intros c' cn'. rewrite process_wakeups_conns. apply Q.
-    + rewrite process_wakeups_conns. exact H0.
+    split; [exact H|]. rewrite process_wakeups_conns. exact H0.
   - (* timeouts *)
-    right. cbn [fst snd]. split; [apply agree_process_timeouts; exact HA|]. split; assumption.
+    right. cbn [fst snd]. split; [apply agree_process_timeouts; exact HA|]. assumption.
   - (* a client connects *)
     apply andb_true_iff in Hok. destruct Hok as [Hok Hfresh]. apply andb_true_iff in Hok. destruct Hok as [Hne _].
-    right. unfold connect. cbn [fst snd set_conn s_conns]. split; [exact HA|]. split.
-    + intros c' cn'. cbn [set_conn s_conns]. destruct (Z.eq_dec c' c) as [E|E].
-      * subst. rewrite zlookup_zset_same. intros H. injection H as <-. reflexivity.
-      * rewrite zlookup_zset_other by exact E. apply Q.
-    + rewrite zlookup_zset_other by lia. exact H0.
+    right. unfold connect. cbn [fst snd set_conn s_conns]. split; [exact HA|].
+    rewrite zlookup_zset_other by lia. exact H0.
   - (* a client goes away *)
     right. cbn [fst snd del_conn s_conns]. split.
     { destruct (is_blocked b c) eqn:Eb; [exact HA|]. apply agree_unregister_all; [exact HA|]. apply is_blocked_false. exact Eb. }
-    split.
-    + intros c' cn' H. apply zlookup_zremove_some in H. eapply Q; exact H.
-    + destruct (Z.eq_dec 0 c) as [E|E]; [subst; apply zlookup_zremove_same|rewrite zlookup_zremove_other by exact E; exact H0].
+    destruct (Z.eq_dec 0 c) as [E|E]; [subst; apply zlookup_zremove_same|rewrite zlookup_zremove_other by exact E; exact H0].
 Qed.
 
 Lemma inv_init pw : inv (init_server pw, init_blocking).
 Proof.
-  right. cbn [fst snd]. split; [|split; [intros c cn H; discriminate|reflexivity]].
+  right. cbn [fst snd]. split; [|reflexivity].
   repeat split.
   - intros rk q w [].
   - intros u [].
@@ -1114,13 +1082,13 @@ Theorem frame_reply pw s b now c f oms : reach pw (s, b) -> b_crashed b = false 
   exists rep, (match rep with FNoResponse => wrote b b' [] | _ => wrote b b' [(c, rep)] end)
               /\ blk_change c rep b b' /\ zlookup c (b_blk b) = None.
 Proof.
-  intros H Hc Hok. destruct (reach_inv pw _ H) as [Hi|(HA & Q & H0)]; [cbn [snd] in Hi; congruence|].
+  intros H Hc Hok. destruct (reach_inv pw _ H) as [Hi|(HA & H0)]; [cbn [snd] in Hi; congruence|].
   cbn [fst snd] in *. cbn [step ok] in *. rewrite Hc.
   destruct (zlookup c (s_conns s)) as [cn|] eqn:Hcn; [|discriminate].
-  apply andb_true_iff in Hok. destruct Hok as [Hok Hq]. apply andb_true_iff in Hok. destruct Hok as [Hnb Hg].
-  apply negb_true_iff in Hnb, Hg. apply is_blocked_false in Hnb.
+  apply andb_true_iff in Hok. destruct Hok as [Hnb Hq].
+  apply negb_true_iff in Hnb. apply is_blocked_false in Hnb.
   unfold frame_step. destruct (bprocess_frame now s b c f None oms) as [[rep s'] b1] eqn:E. cbn [snd].
-  destruct (bprocess_frame_inv _ _ _ _ _ _ _ _ _ _ _ HA Q H0 Hcn Hnb Hg E) as (G1 & G2 & G3 & G4 & G5 & G6).
+  destruct (bprocess_frame_inv _ _ _ _ _ _ _ _ _ _ _ HA H0 Hcn Hnb E) as (G1 & G3 & G4 & G5 & G6).
   exists rep. split; [|split; [|exact Hnb]].
   - unfold wrote. destruct rep; cbn [emit b_out rev app]; rewrite G5; reflexivity.
   - unfold blk_change in *. destruct rep; exact G6.
@@ -1142,20 +1110,20 @@ Proof.
   destruct (on_key d k (e_pop left)) as [r0 d0]. destruct r0; try (eapply IH; exact H); injection H as <- _; discriminate.
 Qed.
 Theorem blocking_call_deadline left now s b c dbi parts oms rep s' b' cn :
-  zlookup c (s_conns s) = Some cn ->
+  zlookup c (s_conns s) = Some cn -> c <> 0 ->
   h_bpop left now s b c dbi parts oms = (rep, s', b') ->
   (rep <> FNoResponse /\ b' = b) \/
   (rep = FNoResponse /\ exists tmo keys,
      timeout_of (last parts FNull) oms = Some tmo /\
      zlookup c (b_blk b') = Some {| bl_db := dbi; bl_keys := keys; bl_dl := option_map (fun ms => now + ms) tmo; bl_left := left |}).
 Proof.
-  intros Hcn H. unfold h_bpop in H.
+  intros Hcn Hc0 H. unfold h_bpop in H.
   destruct (len parts <? 3); [left; injection H as <- _ <-; split; [discriminate|reflexivity]|].
   destruct (timeout_of (last parts FNull) oms) as [tmo|]; [|left; injection H as <- _ <-; split; [discriminate|reflexivity]].
   destruct (all_bulks (removelast (tl parts))) as [keys|]; [|left; injection H as <- _ <-; split; [discriminate|reflexivity]].
   destruct (fast_path left (get_db s dbi) keys) as [[r0|] d'] eqn:Ef.
   - left. injection H as <- _ <-. split; [eapply fast_path_reply; exact Ef|reflexivity].
-  - right. rewrite Hcn in H. injection H as <- _ <-. split; [reflexivity|]. exists tmo, keys. split; [reflexivity|].
+  - right. replace (c =? 0) with false in H by lia. rewrite Hcn in H. injection H as <- _ <-. split; [reflexivity|]. exists tmo, keys. split; [reflexivity|].
     cbn [set_blocked with_blk b_blk]. apply zlookup_zset_same.
 Qed.
 Lemma timeout_of_forever arg oms : timeout_of arg oms = Some None ->
@@ -1212,6 +1180,7 @@ Proof.
   destruct (timeout_of (last parts FNull) oms); [|injection H as _ _ <-; reflexivity].
   destruct (all_bulks (removelast (tl parts))); [|injection H as _ _ <-; reflexivity].
   destruct (fast_path left (get_db s dbi) l) as [[r|] d']; [injection H as _ _ <-; reflexivity|].
+  destruct (c =? 0); [injection H as _ _ <-; reflexivity|].
   destruct (zlookup c (s_conns s)); injection H as _ _ <-; reflexivity.
 Qed.
 Lemma bnormal_crashed now s b c dbi parts o oms rep s' b' :
@@ -1286,3 +1255,27 @@ Proof.
   destruct (process_wakeups s b) as [s1 b1]. cbn [fst snd]. destruct (b_crashed b1); [reflexivity|].
   destruct (process_conns now s1 b1) as [s2 b2]. reflexivity.
 Qed.
+
+(** ================= the event loop never ends (since repair e1d4020) ================= *)
+Lemma wake_client_crashed s b u : b_crashed (snd (wake_client s b u)) = b_crashed b.
+Proof.
+  unfold wake_client. destruct (on_key (get_db s (u_db u)) (u_key u) (e_pop (u_left u))) as [r d'].
+  destruct r; cbn [snd]; destruct (zlookup (u_conn u) (b_blk b)); reflexivity.
+Qed.
+Lemma wake_fold_crashed : forall l sb, b_crashed (snd (fold_left wake_step l sb)) = b_crashed (snd sb).
+Proof.
+  induction l as [|u l IH]; intros sb; cbn [fold_left]; [reflexivity|]. rewrite IH.
+  unfold wake_step. destruct (b_crashed (snd sb)) eqn:E; [exact E|]. rewrite wake_client_crashed. exact E.
+Qed.
+Lemma step_crashed st e : b_crashed (snd (step st e)) = b_crashed (snd st).
+Proof.
+  destruct st as [s b]. cbn [step snd]. destruct (b_crashed b) eqn:Ec; [exact Ec|].
+  destruct e as [now c f oms| |now|c|c]; cbn [snd].
+  - rewrite frame_step_crashed. exact Ec.
+  - unfold process_wakeups. rewrite wake_fold_crashed. exact Ec.
+  - unfold process_timeouts. destruct (expire_reg now (b_reg b)) as [ex r']. destruct (timeout_fold ex (with_reg b r')) as (_ & _ & T & _). rewrite T. exact Ec.
+  - exact Ec.
+  - destruct (is_blocked b c); exact Ec.
+Qed.
+Theorem never_crashes pw st : reach pw st -> b_crashed (snd st) = false.
+Proof. induction 1; [reflexivity|]. rewrite step_crashed. exact IHreach. Qed.
